@@ -16,8 +16,8 @@ def run(ctx):
     echcommon.structural(ctx, sample=24 if ctx.quick else None)
     # duplicated ECH extensions of both kinds, bad ECH types, empty enc ... : the degenerate-but-parseable hellos
     echcommon.run_family(ctx, ["MCEchHello_c04.cfg"], what="C08 degenerate hello", sample=400 if ctx.quick else None,
-                         select=lambda c: c["op"] in ("dupEchBefore", "dupEchInnerBefore", "dupEchAfter", "badEchType", "emptyEnc", "outerTypeInInner", "eoeBadLen", "eoeOdd", "svOdd", "innerSvOdd", "sniNameType", "sniTwoNames", "innerSniNameType", "innerTypeNo13"))
-    echcommon.echconn_slice(ctx, lambda c: any(s in ("ZERO", "ZEROAPP", "SHbad") for d, s in c["hist"]), label="degenerate")
+                         select=lambda c: c["op"] in ("dupEchBefore", "dupEchInnerBefore", "dupEchAfter", "badEchType", "emptyEnc", "outerTypeInInner", "eoeBadLen", "eoeOdd", "eoeRepeated", "eoeAmplify", "eoeTwice", "svOdd", "innerSvOdd", "sniNameType", "sniTwoNames", "innerSniNameType", "innerTypeNo13"))
+    echcommon.echconn_slice(ctx, lambda c: any(s in ("ZERO", "ZEROAPP", "SHbad", "CH2no13", "CH2innerType", "CH2noEch") for d, s in c["hist"]), label="degenerate")
     # stall clause: EchWatch scenarios with HelloAt = -1, the client stalling at every (quick: every 16th) byte offset
     ctx.mc("EchWatch", "MCEchWatch.cfg", timeout=600)
     watch.run_watch(ctx, 1, 16 if ctx.quick else 1, label="stall")
